@@ -40,6 +40,7 @@ var simResources = []sim.Resource{
 	{Group: "ctl.example.com", Version: "v1", Resource: "plainthings", Kind: "PlainThing", Namespaced: true, HasStatus: false}, // a parent kind without the status subresource
 	{Group: "", Version: "v1", Resource: "pods", Kind: "Pod", Namespaced: true, HasStatus: true},
 	{Group: "apps.example.com", Version: "v1", Resource: "widgets", Kind: "Widget", Namespaced: true, HasStatus: false},
+	{Group: "apps.example.com", Version: "v2", Resource: "widgets", Kind: "Widget", Namespaced: true, HasStatus: false}, // the same resource at another version (its own objects here)
 	{Group: "", Version: "v1", Resource: "namespaces", Kind: "Namespace", Namespaced: false, HasStatus: true},
 	{Group: "metacontroller.k8s.io", Version: "v1alpha1", Resource: "controllerrevisions", Kind: "ControllerRevision", Namespaced: true, HasStatus: false},
 }
@@ -542,7 +543,7 @@ func (w *cworld) refreshInformers(b *builtPC) error {
 			}
 		}
 	}
-	deadline := time.Now().Add(5 * time.Second)
+	deadline := time.Now().Add(2 * time.Second)
 	for {
 		ok := true
 		for _, in := range infs {
@@ -564,7 +565,9 @@ func (w *cworld) refreshInformers(b *builtPC) error {
 			break
 		}
 		if time.Now().After(deadline) {
-			return fmt.Errorf("long-lived controller: informers did not catch up with the store")
+			// not the harness's call: the sync runs on whatever the informers hold, the round record shows it
+			// (a cache that holds objects of another type than its resource is judged by the checks)
+			break
 		}
 		time.Sleep(500 * time.Microsecond)
 	}
